@@ -709,6 +709,16 @@ func c13Acquisitions(e *Env) {
 					found = true
 				}
 			}
+			// or the method value itself is put on the list: closeFns = append(closeFns, cc.releaseOutstandingInteraction)
+			core.Instrs(f, func(in ssa.Instruction) {
+				if mk, isMk := in.(*ssa.MakeClosure); isMk {
+					if fn, isFn := mk.Fn.(*ssa.Function); isFn && strings.HasPrefix(fn.Synthetic, "bound method wrapper") {
+						if obj, isObj := fn.Object().(*types.Func); isObj && core.QName(obj) == "udp/client.Conn.releaseOutstandingInteraction" {
+							found = true
+						}
+					}
+				}
+			})
 			ok = found
 		}
 		e.R.Check(ok, rule, "udp/client.Conn.prepareWriteMessage:nstart-release-queued", e.fpos(f), "the NSTART slot's release is put on the cleanup list right after a successful acquire", "the NSTART slot is not released by the cleanup list")
